@@ -422,7 +422,7 @@ pub fn subnet_filters() -> Vec<Option<AF>> {
     v
 }
 pub fn endpoints() -> Vec<IpAddr> {
-    ["10.0.0.0", "10.0.0.1", "10.0.0.2", "10.0.0.255", "10.0.1.0", "11.0.0.1", "255.255.255.255", "2001:db8::", "2001:db8::1", "2001:db8::2", "2001:db8:0:0:ffff::", "2001:db8:0:1::", "::1"]
+    ["10.0.0.0", "10.0.0.1", "10.0.0.2", "10.0.0.255", "10.0.1.0", "11.0.0.1", "255.255.255.255", "2001:db8::", "2001:db8::1", "2001:db8::2", "2001:db8:0:0:ffff::", "2001:db8:0:1::", "::1", "::ffff:10.0.0.1", "::ffff:10.0.0.2"]
         .iter()
         .filter_map(|s| s.parse().ok())
         .collect()
